@@ -7,6 +7,7 @@ package main
 // missing / read-only TMPDIR, zero non-zeros, cancellation at the k-th row.
 
 import (
+	"fmt"
 	"context"
 	"os"
 	"path/filepath"
@@ -82,7 +83,12 @@ func gcSettle() {
 	}
 }
 
-func runC12(h *H) {
+func runC12(h *H) { runC12As(h, "C12", h.budget(150, 1500), false) }
+
+// runC12As runs swap-out histories; for C07 (cancellation of Mmap must leave the matrix intact) the operations
+// are biased towards swap-out / modification / cancelled swap-out and the case ids carry the C07 prefix
+// (the lines are still judged by the swap-out model: property token C12).
+func runC12As(h *H, idPrefix string, nh int, cancelBias bool) {
 	g := h.g
 	bdir := os.Getenv("VERIF_BUILD")
 	if bdir == "" {
@@ -96,7 +102,6 @@ func runC12(h *H) {
 	os.Setenv("TMPDIR", tmp)
 	defer os.Setenv("TMPDIR", oldTmp)
 	gcSettle()
-	nh := h.budget(150, 1500)
 	for k := 0; k < nh; k++ {
 		gcSettle()
 		baseMaps := swapMapLines()
@@ -115,6 +120,9 @@ func runC12(h *H) {
 		for s := 0; s < steps; s++ {
 			done++
 			op := g.pick("mmap", "mmap", "mmap", "munmap", "munmap", "merge", "mergeinto", "setdim", "shrinkcols", "shrinkcols", "reset", "gc", "mmap-cancel", "mmap-notmpdir", "mmap-rotmpdir")
+			if cancelBias {
+				op = g.pick("mmap", "mmap", "mmap-cancel", "mmap-cancel", "mmap-cancel", "merge", "mergeinto", "shrinkcols", "munmap", "setdim")
+			}
 			g.count("op:" + op)
 			status := "ok"
 			pan := safely(func() {
@@ -212,7 +220,9 @@ func runC12(h *H) {
 			gcSettle()
 		}
 		leakedMaps := swapMapLines() - baseMaps
-		h.emit(h.line("C12", "hist").CSM(m0).Int(done).Str(w.String()).Str("end").Int(leakedMaps).Int(tmpFiles(tmp)))
+		h.n++
+		lw := (&W{}).Str(fmt.Sprintf("%s-%d", idPrefix, h.n)).Str("C12").Str("hist")
+		h.emit(lw.CSM(m0).Int(done).Str(w.String()).Str("end").Int(leakedMaps).Int(tmpFiles(tmp)))
 	}
 }
 
